@@ -213,14 +213,19 @@ func unmarshalIQ(ctx context.Context, iq xml.TokenReader, v interface{}, s *Sess
 	}
 	payload := xmlstream.Inner(resp)
 	d := xml.NewTokenDecoder(payload)
-	startTok, err := d.Token()
-	switch err {
-	case io.EOF:
-		return nil
-	case nil:
-	default:
-		return err
+	for {
+		startTok, err := d.Token()
+		switch err {
+		case io.EOF:
+			return nil
+		case nil:
+		default:
+			return err
+		}
+		// Skip anything that comes before the payload element (eg. whitespace
+		// or other character data).
+		if start, ok = startTok.(xml.StartElement); ok {
+			return d.DecodeElement(v, &start)
+		}
 	}
-	start = startTok.(xml.StartElement)
-	return d.DecodeElement(v, &start)
 }
